@@ -116,13 +116,24 @@ def run(rep):
         raise AnalysisError(f"{gfile}: c_neighbours: offset loops not found")
     outer = outer[0]
     inner = [s for s in body_stmts(loop_parts(outer)[3]) if s.get("kind") == "ForStmt"]
-    if len(inner) != 1:
+    flat = False
+    if len(inner) == 0:
+        # one loop over the nine slots (ix, iy derived from the slot number)
+        lo_ = cq.loop_range(outer, cq.preceding(ntop, outer))
+        if not cq.range_is(lo_, "0", "8"):
+            raise AnalysisError(f"{gfile}: c_neighbours: offset loops not found")
+        flat = True
+        inner = outer
+        outer_v = inner_v = lo_["var"]
+        rep.proved("R06.a", gfile, "c_neighbours", "one loop over the nine slots 0..8", line=outer.get("_line"))
+    elif len(inner) != 1:
         raise AnalysisError(f"{gfile}: c_neighbours: inner offset loop not found")
-    inner = inner[0]
-    lo_, li_ = cq.loop_range(outer, cq.preceding(ntop, outer)), cq.loop_range(inner, cq.preceding(body_stmts(loop_parts(outer)[3]), inner))
-    rep.check(cq.range_is(lo_, "-1", "1") and cq.range_is(li_, "-1", "1"), "R06.a", gfile, "c_neighbours", "offsets ix, iy range over -1..1",
-              f"outer {lo_ and (show(lo_['lo']) if lo_['lo'] else None, show(lo_['hi']) if lo_['hi'] else None)}", line=outer.get("_line"))
-    outer_v, inner_v = lo_["var"] if lo_ else loop_var(outer), li_["var"] if li_ else loop_var(inner)
+    else:
+        inner = inner[0]
+        lo_, li_ = cq.loop_range(outer, cq.preceding(ntop, outer)), cq.loop_range(inner, cq.preceding(body_stmts(loop_parts(outer)[3]), inner))
+        rep.check(cq.range_is(lo_, "-1", "1") and cq.range_is(li_, "-1", "1"), "R06.a", gfile, "c_neighbours", "offsets ix, iy range over -1..1",
+                  f"outer {lo_ and (show(lo_['lo']) if lo_['lo'] else None, show(lo_['hi']) if lo_['hi'] else None)}", line=outer.get("_line"))
+        outer_v, inner_v = lo_["var"] if lo_ else loop_var(outer), li_["var"] if li_ else loop_var(inner)
     # decomposition of the cell number before the loops (getnxy inlined): two scratch values, column then row
     pre = cq.evaluate(cq.preceding(ntop, outer), oracle=lambda c: False)       # range guards not taken
     scratch = [e for e in pre.effects if e.op == "=" and e.arr not in ("neighbours",)]
@@ -149,55 +160,69 @@ def run(rep):
     cn = Canon()
     want_slot = cn.ratio(cq.parse(f"1 + {inner_v} + 3*(1 + {outer_v})"))
     alt_slot = cn.ratio(cq.parse(f"1 + {outer_v} + 3*(1 + {inner_v})"))
-    for centre, inside in ((True, None), (False, True), (False, False)):
-        def oracle(c, centre=centre, inside=inside):
-            if c[0] in ('and', 'or', 'not'):
-                from .c03 import _bool
-                return _bool(c, oracle)
-            if c[0] == 'cmp':
-                a, b = show(c[2]), show(c[3])
-                if {a, b} & {outer_v, inner_v} and {a, b} & {"0"} and c[1] in ("==", "!="):
-                    return centre if c[1] == "==" else not centre
-                # range tests on col+ix / row+iy: `< 0`, `> n-1`, `>= n` are "outside" tests, `>= 0`, `< n`, `<= n-1` "inside" tests
-                d = cq.cond_atoms(c, True)
-                if inside is None:
-                    return None
-                outside_form = _is_outside_test(c)
-                if outside_form is None:
-                    return None
-                return (not inside) if outside_form else inside
-            return None
-        ce = CEval(oracle, {cname: cellarr})
-        try:
-            ce._walk(istm, {}, [])
-        except Undecided as ex:
-            rep.undecided("R06.a", gfile, "c_neighbours", "slot store", str(ex), line=inner.get("_line"))
-            continue
-        st = [e for e in ce.effects if e.arr == "neighbours"]
-        okk = len(st) == 1 and cn.ratio(st[0].idx) == want_slot
-        swapped = len(st) == 1 and cn.ratio(st[0].idx) == alt_slot
-        # which loop variable is the column offset: the one added to the column in the stored cell number
-        if centre:
-            rep.check((okk or swapped) and cn.ratio(st[0].val) == Ratio.const(-1), "R06.b", gfile, "c_neighbours", "centre slot holds -1", "", line=inner.get("_line"))
-        elif inside:
-            want = cn.ratio(cq.parse(f"(ROW + {outer_v})*ncols + (COL + {inner_v})"))
-            want_sw = cn.ratio(cq.parse(f"(ROW + {inner_v})*ncols + (COL + {outer_v})"))
-            ok = (okk and cn.ratio(st[0].val) == want) or (swapped and cn.ratio(st[0].val) == want_sw)
-            rep.check(ok, "R06.a", gfile, "c_neighbours",
-                      "slot k = 1+ix+3(1+iy) holds cell (row+iy)*ncols + (col+ix): rows of the layout are grid rows, columns are grid columns",
-                      f"slot {show(st[0].idx) if st else None} holds {show(st[0].val) if st else None}", line=inner.get("_line"))
+    # The inner body is evaluated once symbolically (stores into `neighbours` with their path conditions); the conditions and the
+    # stored slot / value are then decided by integer evaluation on the finite domain: grids of 1..3 rows and columns, every cell,
+    # the nine offsets.  Whichever way the tests are written (centre as ix==0&&iy==0 or k==4, inside or outside polarity), the
+    # store that is live for an offset must be slot 1+ix+3(1+iy) <- (row+iy)*ncols + col+ix, or -1 for the centre and off-grid cells.
+    try:
+        nce = cq.evaluate(istm, arrays={cname: cellarr})
+        nst = [e for e in nce.effects if e.arr == "neighbours" and e.op == "="]
+    except Undecided as ex:
+        nst = None
+        rep.undecided("R06.a", gfile, "c_neighbours", "slot store", str(ex), line=inner.get("_line"))
+    if nst is not None:
+        verdicts = {}
+        for swap in (False, True):
+            bad_a, bad_b, und_, ncase = [], [], None, 0
+            for nr_ in (1, 2, 3):
+                for nc_ in (1, 2, 3):
+                    for r_ in range(nr_):
+                        for c_ in range(nc_):
+                            for dy in (-1, 0, 1):
+                                for dx in (-1, 0, 1):
+                                    envv = {"nrows": nr_, "ncols": nc_, "ROW": r_, "COL": c_, "idxcell": r_ * nc_ + c_}
+                                    if flat:
+                                        envv[inner_v] = (1 + dx + 3 * (1 + dy)) if not swap else (1 + dy + 3 * (1 + dx))
+                                    else:
+                                        envv[inner_v if not swap else outer_v] = dx
+                                        envv[outer_v if not swap else inner_v] = dy
+                                    live = []
+                                    for e in nst:
+                                        vals = [(cq.int_eval(cnd, envv), t) for cnd, t in e.conds]
+                                        if any(v is None for v, _t in vals):
+                                            und_ = f"test outside the integer vocabulary: {show(e.conds[0][0])[:60]}"
+                                            continue
+                                        if all(bool(v) == t for v, t in vals):
+                                            live.append(e)
+                                    if und_:
+                                        continue
+                                    ncase += 1
+                                    slot = 1 + dx + 3 * (1 + dy)
+                                    inside_ = 0 <= r_ + dy < nr_ and 0 <= c_ + dx < nc_ and (dx, dy) != (0, 0)
+                                    want_v = (r_ + dy) * nc_ + c_ + dx if inside_ else -1
+                                    if not live:
+                                        bad_a.append(f"grid {nr_}x{nc_} cell ({r_},{c_}) offset ({dx},{dy}): nothing stored")
+                                        continue
+                                    e = live[-1]
+                                    si, vi = cq.int_eval(e.idx, envv), cq.int_eval(e.val, envv)
+                                    if si is None or vi is None:
+                                        und_ = f"slot / value outside the integer vocabulary: {show(e.idx)[:40]} <- {show(e.val)[:40]}"
+                                        continue
+                                    if si != slot or (inside_ and vi != want_v):
+                                        bad_a.append(f"grid {nr_}x{nc_} cell ({r_},{c_}) offset ({dx},{dy}): slot {si} <- {vi}, expected slot {slot} <- {want_v}")
+                                    elif not inside_ and vi != -1:
+                                        bad_b.append(f"grid {nr_}x{nc_} cell ({r_},{c_}) offset ({dx},{dy}): slot {si} <- {vi}, expected -1 ({'centre' if (dx, dy) == (0, 0) else 'off-grid'})")
+            verdicts[swap] = (bad_a, bad_b, und_, ncase)
+        best = min(verdicts.values(), key=lambda v: (v[2] is not None, len(v[0]) + len(v[1])))
+        bad_a, bad_b, und_, ncase = best
+        if und_:
+            rep.undecided("R06.a", gfile, "c_neighbours", "slot store", und_, line=inner.get("_line"))
         else:
-            rep.check((okk or swapped) and cn.ratio(st[0].val) == Ratio.const(-1), "R06.b", gfile, "c_neighbours", "off-grid neighbours are -1", "", line=inner.get("_line"))
-    # the off-grid test covers the four sides: collect the atoms of every test on col+ix / row+iy in the inner body
-    sides = set()
-    for n in find_all(inner, lambda n: n.get("kind") in ("IfStmt", "ConditionalOperator")):
-        try:
-            e = ceval.to_expr(n["inner"][0], {}, {cname: cellarr})
-        except Undecided:
-            continue
-        sides |= _sides(e, outer_v, inner_v)
-    rep.check(sides >= {"col<0", "col>=ncols", "row<0", "row>=nrows"}, "R06.b", gfile, "c_neighbours",
-              "off-grid test: col+ix < 0, col+ix > ncols-1, row+iy < 0, row+iy > nrows-1", f"sides tested: {sorted(sides)}", line=nb["line"])
+            rep.check(not bad_a, "R06.a", gfile, "c_neighbours",
+                      "slot k = 1+ix+3(1+iy) holds cell (row+iy)*ncols + (col+ix): rows of the layout are grid rows, columns are grid columns",
+                      (bad_a[0] + (f" ... {len(bad_a)} of {ncase} cases" if len(bad_a) > 1 else "")) if bad_a else f"{ncase} (grid, cell, offset) cases", line=inner.get("_line"))
+            rep.check(not bad_b, "R06.b", gfile, "c_neighbours", "centre slot and off-grid neighbours hold -1 (all four sides, grids of 1 to 3 rows and columns)",
+                      (bad_b[0] + (f" ... {len(bad_b)} of {ncase} cases" if len(bad_b) > 1 else "")) if bad_b else f"{ncase} cases", line=inner.get("_line"))
     k = lambda ix, iy: 1 + ix + 3 * (1 + iy)
     rep.check(all(k(-ix, -iy) == 8 - k(ix, iy) for ix in (-1, 0, 1) for iy in (-1, 0, 1)), "R06.a", gfile, "c_neighbours", "k(-ix,-iy) = 8 - k(ix,iy): slot 8-j is the opposite direction of slot j", "")
 
